@@ -12,6 +12,7 @@
          u,_,v = svd(R); r = u·v                                 ↦ parameter `proj : M3 K → M3 K` (contract: identity on proper
                                                                    rotations; the harness passes NumPy's actual u·v as data)
          s < 1e-5 snap branch, c > 0 → zeros, else half-turn     ↦ `rodriguesInverseCore thr p`
+         sign tests of the half-turn branch on the symmetric part ↦ `rodSignTests` / `signTestVal` (`halfTurnAxis`)
          analytic Jacobian (9×3)                                 ↦ `J3`, block i = ∂w_i/∂R (row-major) = column i
     cv2_rodrigues                                                ↦ `cv2Rodrigues`  (size == 3 → forward, shape == (3,3) → inverse,
                                                                    else ValueError)
@@ -62,6 +63,11 @@ def rodDomegadvar2 : List (List String) :=
 /-- the snap-branch Jacobian for `c > 0`: (row, column, sign) of the entries `±0.5` of the 9×3 array -/
 def rodSmallJacInvTable : List (Nat × Nat × Int) :=
   [(1, 2, -1), (5, 0, -1), (6, 1, -1), (2, 1, 1), (3, 2, 1), (7, 0, 1)]
+/-- the three sign tests of the half-turn branch, in source order: the matrix entries summed on the left and the
+    comparison with 0 — `r[0,1] + r[1,0] < 0`, `r[0,2] + r[2,0] < 0`, `r[1,2] + r[2,1] > 0` (the symmetric part,
+    since fix 9da4f71; before it the single entries `r[0,1]`, `r[0,2]`, `r[1,2]`) -/
+def rodSignTests : List (List (Nat × Nat) × String) :=
+  [([(0, 1), (1, 0)], "Lt"), ([(0, 2), (2, 0)], "Lt"), ([(1, 2), (2, 1)], "Gt")]
 variable {K : Type} [Add K] [Sub K] [Mul K] [Div K] [Neg K] [OfNat K 0] [OfNat K 1]
   [LT K] [LE K] [DecidableLT K] [DecidableLE K] [BEq K]
 
@@ -106,6 +112,19 @@ def sumIdx (r : V3 K) : List Nat → K
   | [] => 0
   | [i] => r.get i
   | i :: rest => r.get i + sumIdx r rest
+
+/-- entry `(i, j)` of a 3×3 matrix -/
+def m3Get (p : M3 K) (i j : Nat) : K :=
+  match i with
+  | 0 => p.r0.get j
+  | 1 => p.r1.get j
+  | _ => p.r2.get j
+
+/-- sum of the listed matrix entries -/
+def entrySum (p : M3 K) : List (Nat × Nat) → K
+  | [] => 0
+  | [e] => m3Get p e.1 e.2
+  | e :: rest => m3Get p e.1 e.2 + entrySum p rest
 
 /-- `_r_x_ = [[0, -r[2], r[1]], [r[2], 0, -r[0]], [-r[1], r[0], 0]]` -/
 def skew (r : V3 K) : M3 K := ⟨⟨0, -r.z, r.y⟩, ⟨r.z, 0, -r.x⟩, ⟨-r.y, r.x, 0⟩⟩
@@ -208,15 +227,21 @@ def invJacBlock (theta vth d1 d2 ri : K) (i : Nat) : M3 K :=
 section inverse
 variable [Sqrt K] [Trig K]
 
+/-- the left-hand side of the `n`-th sign test (`rodSignTests`): since fix 9da4f71 twice the symmetric part,
+    `r[0,1] + r[1,0]`, `r[0,2] + r[2,0]`, `r[1,2] + r[2,1]` -/
+def signTestVal (p : M3 K) (n : Nat) : K := entrySum p (rodSignTests.getD n ([], "")).1
+
 /-- the axis recovered in the half-turn branch: `np.sqrt(np.clip((np.diag(r) + 1) * 0.5, 0, np.inf))` (clip *before*
-    the square root since fix b956e7d) with the sign fix-ups -/
+    the square root since fix b956e7d) with the sign fix-ups, which read the symmetric part of the matrix (fix
+    9da4f71): `if r[0,1] + r[1,0] < 0: ry = -ry`, `if r[0,2] + r[2,0] < 0: rz = -rz`, and
+    `(r[1,2] + r[2,1] > 0) != (ry * rz > 0)` in the third one -/
 def halfTurnAxis (p : M3 K) : V3 K :=
   let rx := sqrt (clip0 ((p.r0.x + 1) * rodHalf))
   let ry := sqrt (clip0 ((p.r1.y + 1) * rodHalf))
   let rz := sqrt (clip0 ((p.r2.z + 1) * rodHalf))
-  let ry := if p.r0.y < 0 then -ry else ry
-  let rz := if p.r0.z < 0 then -rz else rz
-  let rz := if absK rx < absK ry ∧ absK rx < absK rz ∧ (decide (0 < p.r1.z) != decide (0 < ry * rz)) then -rz else rz
+  let ry := if signTestVal p 0 < 0 then -ry else ry
+  let rz := if signTestVal p 1 < 0 then -rz else rz
+  let rz := if absK rx < absK ry ∧ absK rx < absK rz ∧ (decide (0 < signTestVal p 2) != decide (0 < ry * rz)) then -rz else rz
   ⟨rx, ry, rz⟩
 
 /-- everything after the SVD projection -/
